@@ -1,14 +1,19 @@
 ------------------------------ MODULE C10Trace ------------------------------
 (***************************************************************************)
 (* Leg C for C10.  One trace line per world and query history:             *)
-(*   blocks[b]   [ext, series]: the blocks as the Prometheus TSDB reader   *)
+(*   ds          TRUE when the world has downsampled blocks                *)
+(*   blocks[b]   [ext, series, res, mint, maxt]: the blocks as the TSDB    *)
 (*               sees them over all time; series[i] = [id, ls, chunks],    *)
 (*               chunks = <<mint, maxt, crc of the samples>> in time order *)
 (*   qs[k]       one query of the history, in order:                       *)
 (*     ms, mint, maxt   the selectors [name, type, kind, alts] and range   *)
 (*     loaded     positions (in blocks) of the blocks that were in the     *)
 (*                bucket at the store's last SyncBlocks before the query   *)
-(*     oracle     frames [ls, chunks] of tsdb.OpenBlock + ChunkQuerier     *)
+(*     maxres, aggrs   max_resolution_window and the requested aggregates  *)
+(*                (1 count, 2 sum, 3 min, 4 max, 5 counter)                *)
+(*     oracle[i]  frames [ls, chunks] of tsdb.OpenBlock + ChunkQuerier on  *)
+(*                the i-th loaded block; a chunk's content is <<crc>> (raw) *)
+(*                or five crcs of the aggregates (-1: not requested)       *)
 (*     res[g]     one group of identical answers of the real BucketStore:  *)
 (*                who = "<store configuration>#cold|warm|again", frames    *)
 (*                in arrival order, err                                    *)
@@ -16,29 +21,52 @@
 (* Judged with the property-level operators of Postings only.              *)
 (***************************************************************************)
 EXTENDS TraceLib, Postings
+BS == INSTANCE BlockSet
 
 BlockOf(jb) == [ext |-> jb.ext, series |-> PRange(jb.series)]
 BlocksOf(e) == { BlockOf(e.blocks[b]) : b \in DOMAIN e.blocks }
 QueryOf(jq) == [ms |-> PRange(jq.ms), mint |-> jq.mint, maxt |-> jq.maxt]
 
+BlockOfQ(jb, A) == [ext |-> jb.ext, series |-> { ProjSeries(s, A) : s \in PRange(jb.series) }]
+
 (* an answer as a set of [ls, chunks]: frames with the same labels are one series *)
 AnswerSet(frames) ==
     LET lss == { frames[i].ls : i \in DOMAIN frames }
     IN  { [ls |-> L, chunks |-> UNION { PRange(frames[i].chunks) : i \in { j \in DOMAIN frames : frames[j].ls = L } }] : L \in lss }
+RECURSIVE ConcatAll(_)
+ConcatAll(ss) == IF ss = <<>> THEN <<>> ELSE Head(ss) \o ConcatAll(Tail(ss))
 
-JudgeQuery(blocks, jq) ==
-    LET want == Select(blocks, QueryOf(jq))                 \* the statement, on the world
-        tsdb == AnswerSet(jq.oracle)                        \* "reading the same blocks with the Prometheus TSDB reader"
+(* Which of the loaded blocks may be read for a request (property C15, per stream = per external *)
+(* label set): blocks not coarser than max_resolution_window that overlap the range and together  *)
+(* cover what the allowed blocks cover.  Without downsampled blocks: all loaded blocks.           *)
+BSBlock(e, b) == [id |-> b, res |-> e.blocks[b].res, min |-> e.blocks[b].mint, max |-> e.blocks[b].maxt]
+Acceptable(e, jq) ==
+    LET L == PRange(jq.loaded)
+        q == [mint |-> jq.mint, maxt |-> jq.maxt, maxres |-> jq.maxres]
+        streams == { e.blocks[b].ext : b \in L }
+        okFor(S, x) == LET G == { BSBlock(e, b) : b \in { y \in L : e.blocks[y].ext = x } }
+                           SG == { g \in G : g.id \in S }
+                       IN  /\ \A g \in SG : g.res <= q.maxres /\ BS!Overlaps(g, q)
+                           /\ ~BS!CoverageHole(G, SG, q)
+    IN  IF ~e.ds THEN {L} ELSE { S \in SUBSET L : \A x \in streams : okFor(S, x) }
+
+(* positions (within jq.loaded / jq.oracle) of the loaded blocks in S *)
+OracleOf(jq, S) == ConcatAll([i \in DOMAIN jq.loaded |-> IF jq.loaded[i] \in S THEN jq.oracle[i] ELSE <<>>])
+
+JudgeQuery(e, jq) ==
+    LET A == PRange(jq.aggrs)
+        cands == Acceptable(e, jq)
+        want(S) == Select({ BlockOfQ(e.blocks[b], A) : b \in S }, QueryOf(jq))     \* the statement, on the world
+        tsdb(S) == AnswerSet(OracleOf(jq, S))                 \* "reading the same blocks with the Prometheus TSDB reader"
         answers == { AnswerSet(jq.res[g].frames) : g \in { x \in DOMAIN jq.res : jq.res[x].err = "" } }
     IN  (IF \A g \in DOMAIN jq.res : jq.res[g].err = "" THEN {} ELSE {"answers-without-error"})
-        \cup (IF \A a \in answers : a = tsdb THEN {} ELSE {"equals-the-direct-tsdb-read"})
-        \cup (IF \A a \in answers : a = want THEN {} ELSE {"exactly-the-matching-series-and-overlapping-chunks"})
+        \cup (IF \A a \in answers : \E S \in cands : a = tsdb(S) THEN {} ELSE {"equals-the-direct-tsdb-read"})
+        \cup (IF \A a \in answers : \E S \in cands : a = want(S) THEN {} ELSE {"exactly-the-matching-series-and-overlapping-chunks"})
         \cup (IF Cardinality(answers) <= 1 THEN {} ELSE {"independent-of-cache-lazy-batch-sampling"})
 
 (* "For any set of blocks in object storage ...": the set the store has loaded = what was in the *)
 (* bucket at its last sync                                                                       *)
-LoadedBlocks(e, jq) == { BlockOf(e.blocks[b]) : b \in PRange(jq.loaded) }
-JudgeLine(e) == UNION { JudgeQuery(LoadedBlocks(e, e.qs[k]), e.qs[k]) : k \in DOMAIN e.qs }
+JudgeLine(e) == UNION { JudgeQuery(e, e.qs[k]) : k \in DOMAIN e.qs }
                 \cup (IF e.syncerrs = <<>> THEN {} ELSE {"block-sync-succeeds"})
 
 (* Model conformance (never a verdict): the algorithm-level model of one block - external-label *)
@@ -54,9 +82,16 @@ AlgoSelect(blocks, q) ==
     LET hits == UNION { AlgoBlock(b, q) : b \in blocks }
         lss == { FullLs(h[1], h[2]) : h \in hits }
     IN  { [ls |-> L, chunks |-> UNION { ChunkWalk(h[2].chunks, q.mint, q.maxt) : h \in { x \in hits : FullLs(x[1], x[2]) = L } }] : L \in lss }
+(* the blocks the algorithm-level getFor (BlockSet.tla) selects, per stream *)
+AlgoBlocks(e, jq) ==
+    LET L == PRange(jq.loaded)
+        q == [mint |-> jq.mint, maxt |-> jq.maxt, maxres |-> jq.maxres]
+    IN  UNION { BS!SeqRange(BS!GetFor({ BSBlock(e, b) : b \in { y \in L : e.blocks[y].ext = x } }, q)) : x \in { e.blocks[b].ext : b \in L } }
 Drift(e) ==
     \E k \in DOMAIN e.qs : \E g \in DOMAIN e.qs[k].res :
-        e.qs[k].res[g].err = "" /\ AnswerSet(e.qs[k].res[g].frames) # AlgoSelect(LoadedBlocks(e, e.qs[k]), QueryOf(e.qs[k]))
+        /\ e.qs[k].res[g].err = "" /\ e.qs[k].maxres >= 0
+        /\ AnswerSet(e.qs[k].res[g].frames) #
+             AlgoSelect({ BlockOfQ(e.blocks[b], PRange(e.qs[k].aggrs)) : b \in AlgoBlocks(e, e.qs[k]) }, QueryOf(e.qs[k]))
 
 VARIABLE l
 TraceInit == l = 1
